@@ -297,9 +297,67 @@ def strip_comments_keep_strings(src):
     return "".join(out)
 
 
+# ---- rule reload / decision skeleton ------------------------------------------------------
+
+def fn_body(src, name):
+    m = re.search(r"\bfn\s+%s\b" % name, src)
+    if not m:
+        raise SystemExit("translator: fn %s not found" % name)
+    i = src.index("{", m.end())
+    depth, j = 0, i
+    while j < len(src):
+        if src[j] == "{":
+            depth += 1
+        elif src[j] == "}":
+            depth -= 1
+            if depth == 0:
+                return src[i:j + 1]
+        j += 1
+    raise SystemExit("translator: unbalanced braces in fn %s" % name)
+
+
+def gen_reload():
+    src = strip_rust(open(os.path.join(REPO, "src/main.rs")).read())
+    sr = fn_body(src, "set_rules")
+    writes = [m.start() for m in re.finditer(r"self\s*\.\s*rules\s*\.\s*write\s*\(\)", sr)]
+    fallible_after = False
+    if writes:
+        tail = sr[writes[-1]:]
+        fallible_after = ("?" in tail) or ("bail!" in tail) or ("return Err" in tail)
+    fallible_before = sum(1 for _ in re.finditer(r"\?", sr[:writes[0]])) if writes else 0
+    pr = fn_body(src, "process_request")
+    m = re.search(r"let\s+connector\s*=\s*\{", pr)
+    if not m:
+        raise SystemExit("translator: decision block of process_request not found")
+    i = m.end() - 1
+    depth, j = 0, i
+    while j < len(pr):
+        if pr[j] == "{":
+            depth += 1
+        elif pr[j] == "}":
+            depth -= 1
+            if depth == 0:
+                break
+        j += 1
+    block = pr[i:j + 1]
+    rules_reads = len(re.findall(r"\.rules\(\)\s*\.\s*await", block))
+    fm = block.find("find_map")
+    closure_awaits = len(re.findall(r"\.await", block[fm:])) if fm >= 0 else 99
+    uses_find_map = fm >= 0
+    body = "(* GENERATED by gen/translate.py from src/main.rs (set_rules, process_request).  Do not edit. *)\n"
+    body += "From Coq Require Import NArith.\n"
+    body += "Definition set_rules_write_count : N := %d%%N.\n" % len(writes)
+    body += "Definition set_rules_fallible_steps_before_write : N := %d%%N.\n" % fallible_before
+    body += "Definition set_rules_fallible_after_write : bool := %s.\n" % ("true" if fallible_after else "false")
+    body += "Definition decide_block_rules_reads : N := %d%%N.\n" % rules_reads
+    body += "Definition decide_uses_find_map : bool := %s.\n" % ("true" if uses_find_map else "false")
+    body += "Definition decide_closure_awaits : N := %d%%N.\n" % closure_awaits
+    return body
+
+
 def main(which=None):
     changed = []
-    gens = {"Gen_panics.v": lambda: gen_panics()[0], "Gen_profile.v": gen_profile, "Gen_ladder.v": gen_ladder}
+    gens = {"Gen_panics.v": lambda: gen_panics()[0], "Gen_profile.v": gen_profile, "Gen_ladder.v": gen_ladder, "Gen_reload.v": gen_reload}
     for name, fn in gens.items():
         if which and name not in which:
             continue
